@@ -264,6 +264,44 @@ class AddLayer(Command):
         self.viewer.remove_layer(self.layer)
 
 
+def _snapshot_subsets(cmd, session):
+    """
+    Record, on a command that is about to change subsets, the subset states,
+    the subset groups and the edit-subset choice.
+    """
+    cmd.old_states = {}
+    for data in cmd.data_collection:
+        for subset in data.subsets:
+            cmd.old_states[subset] = subset.subset_state
+    cmd.old_group_states = dict((group, group.subset_state)
+                                for group in cmd.data_collection.subset_groups)
+    cmd.old_edit_subset = list(session.edit_subset_mode.edit_subset or [])
+
+
+def _restore_subsets(cmd, session):
+    """
+    Return subsets, subset groups and the edit-subset choice to what was
+    recorded by _snapshot_subsets.
+    """
+    # subset groups created by the command go away with all their subsets
+    for group in cmd.data_collection.subset_groups:
+        if group not in cmd.old_group_states:
+            cmd.data_collection.remove_subset_group(group)
+
+    for data in cmd.data_collection:
+        for subset in data.subsets:
+            if subset not in cmd.old_states and getattr(subset, 'group', None) is None:
+                subset.delete()
+
+    for k, v in cmd.old_states.items():
+        k.subset_state = v
+
+    for group, state in cmd.old_group_states.items():
+        group.subset_state = state
+
+    session.edit_subset_mode.edit_subset = cmd.old_edit_subset
+
+
 class ApplyROI(Command):
     """
     Apply an ROI to a data collection, updating subset states
@@ -281,21 +319,11 @@ class ApplyROI(Command):
     label = 'apply ROI'
 
     def do(self, session):
-        self.old_states = {}
-        for data in self.data_collection:
-            for subset in data.subsets:
-                self.old_states[subset] = subset.subset_state
-
+        _snapshot_subsets(self, session)
         self.apply_func(self.roi)
 
     def undo(self, session):
-        for data in self.data_collection:
-            for subset in data.subsets:
-                if subset not in self.old_states:
-                    subset.delete()
-
-        for k, v in self.old_states.items():
-            k.subset_state = v
+        _restore_subsets(self, session)
 
 
 class ApplySubsetState(Command):
@@ -316,10 +344,7 @@ class ApplySubsetState(Command):
 
     def do(self, session):
 
-        self.old_states = {}
-        for data in self.data_collection:
-            for subset in data.subsets:
-                self.old_states[subset] = subset.subset_state
+        _snapshot_subsets(self, session)
 
         mode = session.edit_subset_mode
         override_mode = self.extra.get('override_mode')
@@ -332,13 +357,7 @@ class ApplySubsetState(Command):
         mode.update(self.data_collection, self.subset_state, override_mode=override_mode)
 
     def undo(self, session):
-        for data in self.data_collection:
-            for subset in data.subsets:
-                if subset not in self.old_states:
-                    subset.delete()
-
-        for k, v in self.old_states.items():
-            k.subset_state = v
+        _restore_subsets(self, session)
 
 
 class LinkData(Command):
